@@ -347,7 +347,7 @@ pub fn enumerate_roots(depth: usize, planners: &[PlannerTag], emit: &mut dyn FnM
         let nw = worlds(&a).len();
         for planner in planners {
             let radii: &[f64] = if *planner == PlannerTag::RRTStar {
-                &[0.5, 1.5, 3.0]
+                &[0.5, 1.0, 1.5, 3.0]
             } else {
                 &[1.0]
             };
